@@ -637,6 +637,24 @@ pub fn radix_out_check<T: StrApi>(run: &mut Run) {
     });
     run.merge(&config, label, "radix output", vs.len() as u64 * radices.len() as u64, l);
     if huge {
+        if !T::SIGNED {
+            // every bit length: 2^b - 1 in decimal (numeral-length estimates derived from the bit length go
+            // wrong at isolated bit lengths only)
+            let all_b: Vec<u64> = (1..=bits as u64).collect();
+            let one = Z::from_i128(1);
+            let l = par_chunks(run.threads, all_b.len(), |lo, hi, l| {
+                for &b in &all_b[lo..hi] {
+                    let zx = Z::pow2(b).sub(&one);
+                    let x = T::from_z(&zx);
+                    let st = || vec![vengine::hex(&x.le()), "10".to_string()];
+                    l.enter(&cfg, "to_radix_le", st, 10);
+                    let e: Expect<Z> = Expect::Is(Obs::S(zx.to_str_radix(10)));
+                    let o = catch(|| Obs::S(x.to_str_radix_(10)));
+                    l.check(&cfg, "to_str_radix", st, 10, &e, &o);
+                }
+            });
+            run.merge(&config, "HUGE: 2^b - 1 for every bit length b, decimal", "radix output", all_b.len() as u64, l);
+        }
         return;
     }
     // directed values per radix: powers of the radix, interior zero runs, power-valued top digits
